@@ -393,6 +393,30 @@ def run(facts, res):
                               "block checker accepts a block whose object is in no pack (incremental refresh applies it, a reload of the same storage holds "
                               "it back) and the value disappears when the entry is evicted" % b.path, b.loc(t.line))
     res.floor("D3", "functions that empty the object stage", n3c, 2)
+    # D3d: the cache is filled only with what has just been staged (or read back verified): every `put` into the object cache
+    # lies behind the success edge of the call that stages the same object - not on a path where the staging was skipped
+    # (sentinel revisions are never staged; cached under their digest they would shadow the value synthesised for them)
+    from ..conds import success_dominates as _sd
+    n3d = 0
+    for b in facts.repo_bodies():
+        if b.impl_adt != "datastorage::DataStorage":
+            continue
+        puts = [(bi, t) for bi, t in b.calls() if t.callee is not None and t.callee.name in ("put", "push", "get_or_insert") and
+                "lru::LruCache" in (t.callee.path or "") and "ArrayDescriptor" not in " ".join(t.callee.args)]
+        if not puts:
+            continue
+        stagers = [s_ for s_ in cg.sites[b.path] if not s_.fanout and ("datastorage::DataStorage", "stage") in eff.site_effects(s_)]
+        readers = [s_ for s_ in cg.sites[b.path] if s_.callee is not None and s_.callee.name in (roles_of(facts).name("obj_reader"),)]
+        for bi, t in puts:
+            n3d += 1
+            ok = any(_sd(b, s_.block, bi, facts) for s_ in stagers + readers)
+            res.instance("D3", "%s: the object cache is filled only behind a successful staging (or verified read) of the object: %s" % (b.path, ok), b.loc(t.line))
+            if not ok:
+                res.violation("D3", "%s|cache-filled-without-staging" % b.path,
+                              "%s puts an object into the cache on a path where it was not staged: a value that is neither staged nor stored (e.g. the "
+                              "object submitted for a sentinel revision) becomes readable while it stays cached, so what a replica shows depends on the "
+                              "cache capacity and differs from a reopened replica" % b.path, b.loc(t.line))
+    res.floor("D3", "object cache fill sites", n3d, 1)
 
 
 _RAW = {}
